@@ -795,23 +795,37 @@ def run(repo, rep):
     rep.analysed(gf)
     rep.analysed(wm)
     p6 = []
-    calls = [n for n in ast.walk(gf.node) if isinstance(n, ast.Call) and norm(n.func) == 'write_meta']
-    if not calls or len(calls[0].args) < 3 or norm(calls[0].args[2]) != '%s.supported_ts' % gf.params[1] \
-            or norm(calls[0].args[1]) != gf.params[2]:
+    # by provenance, through whatever helpers get_file hands the file to
+    gc = SymClient(repo, gf, event_of=lambda call, callee, *_: 'wm' if callee == 'write_meta' else
+                   'tell' if callee.endswith('.tell') else None, hierarchy=hier, inline=repo.is_helper)
+    gfin = gc.final_states(gc.run(empty_state()))
+    wms = [e_ for e_, _s in gc.log if e_.kind == 'wm']
+    if not wms or any(len(e_.args) < 3 or e_.args[2] != '%s.supported_ts' % gf.params[1] or e_.args[1] != gf.params[2] for e_ in wms):
         p6.append('get_file does not write the meta header with (command_set, context.supported_ts)')
     tsp = wm.params[2]
     if not any(isinstance(n, ast.Assign) and norm(n.targets[0]).endswith('.TransferSyntaxUID') and norm(n.value) == tsp
                for n in ast.walk(wm.node)):
         p6.append('write_meta does not record the negotiated transfer syntax as TransferSyntaxUID')
-    rets = [n for n in ast.walk(gf.node) if isinstance(n, ast.Return) and n.value is not None]
-    if not any(isinstance(r.value, ast.Tuple) and len(r.value.elts) == 2 for r in rets):
+    normal = [(s_, how_) for s_, how_ in gfin if not how_.startswith('raise')]
+
+    def is_pair(t):
+        try:
+            e_ = ast.parse(t, mode='eval').body
+        except SyntaxError:
+            return False
+        return isinstance(e_, ast.Tuple) and len(e_.elts) == 2
+    if not normal or not all(s_.ret is not None and is_pair(s_.ret) for s_, _h in normal):
         p6.append('get_file does not return (file, start position)')
     rep.check(not p6, 'C07.D6', 'applicationentity:AEBase.get_file:meta-header', gf.loc(),
               'meta header written with the context\'s transfer syntax; returns (file, start)', '; '.join(p6))
     # the start position is taken before the preamble is written
     p6 = []
-    tell_line = min([n.lineno for n in ast.walk(gf.node) if isinstance(n, ast.Call) and norm(n.func).endswith('.tell')] or [10 ** 9])
-    wm_line = min([n.lineno for n in ast.walk(gf.node) if isinstance(n, ast.Call) and norm(n.func) == 'write_meta'] or [0])
+    order_ok = bool(normal)
+    for s_, _h in normal:
+        ks = [e_.kind for e_ in s_.trail if e_.kind in ('tell', 'wm')]
+        if 'tell' not in ks or 'wm' not in ks or ks.index('tell') > ks.index('wm'):
+            order_ok = False
+    tell_line, wm_line = (0, 1) if order_ok else (1, 0)
     rep.check(tell_line < wm_line, 'C07.D6', 'applicationentity:AEBase.get_file:start-position', gf.loc(),
               'start position recorded before the preamble and meta header are written',
               'start position is not taken before write_meta(): the file handed to the application does not start at the preamble')
